@@ -2,6 +2,8 @@
 import BV.C12.Model
 import BV.C12.Spec
 import BV.C12.Gen
+import BV.C09.Model
+import BV.Common.Hex
 namespace BV.C12.Driver
 open BV.C12
 
@@ -146,6 +148,51 @@ def render (e : Env) (pool : List Tx) (t : Template) (pb : Bool) : String :=
   ++ ",pay:" ++ b2s (Spec.accountingOk e pool t)
   ++ ",wc:1,meta:1,ccb:1,upd:1,pb:" ++ (if pb then "1" else "-")
 
+/-- `dp=` token: difficulty parameters in the order of C09's `Params`. -/
+def parseDiffParams? (s : String) : Option BV.C09.Params :=
+  match s.splitOn ":" with
+  | [pl, plb, nr, rmd, mdrt, tts, ttpb, af, b94] => do
+    let pl ← BV.Hex.hexToNat? pl
+    let plb ← BV.Hex.hexToNat? plb
+    let nr ← parseBool? nr
+    let rmd ← parseBool? rmd
+    let mdrt ← mdrt.toInt?
+    let tts ← tts.toInt?
+    let ttpb ← ttpb.toInt?
+    let af ← af.toInt?
+    let b94 ← parseBool? b94
+    pure ⟨pl, plb, nr, rmd, mdrt, tts, ttpb, af, b94⟩
+  | _ => none
+
+def parseHist? (s : String) : Option (List BV.C09.Hdr) :=
+  (s.splitOn ",").mapM (fun h => match h.splitOn ":" with
+    | [t, b] => do
+      let t ← t.toInt?
+      let b ← BV.Hex.hexToNat? b
+      pure ⟨t, b⟩
+    | _ => none)
+
+def hex8 (n : Nat) : String :=
+  let s := BV.Hex.natToHex n
+  String.ofList (List.replicate (8 - s.length) '0') ++ s
+
+/-- Difficulty observation of a template on a chain with retargeting: the bits `NewBlockTemplate`
+puts into the header (required difficulty at the header time), and time and bits after
+`UpdateBlockTime` at clock `unow` (required difficulty at the NEW header time; C09's model). -/
+def diffObs (e : Env) (kvs : List (String × String)) : Option String :=
+  match lookup kvs "dp" with
+  | none => some ""
+  | some dp => do
+    let p ← parseDiffParams? dp
+    let hist ← parseHist? (← lookup kvs "hist")
+    let unow ← match lookup kvs "unow" with
+      | some u => u.toInt?
+      | none => some (e.now + 31)
+    let utime := headerTime { e with now := unow }
+    let bits ← BV.C09.calcNextRequiredDifficulty p hist (headerTime e)
+    let ubits ← if p.reduceMinDiff then BV.C09.calcNextRequiredDifficulty p hist utime else some bits
+    pure (" bits=" ++ hex8 bits ++ " utime=" ++ toString utime ++ " ubits=" ++ hex8 ubits)
+
 /-- the selection part of the observation (op `two`) -/
 def renderCore (e : Env) (pool : List Tx) : Result → String
   | Result.err => "err"
@@ -177,9 +224,10 @@ def handleOne : List String → String
       let txToks := (kvs.filter (·.1 == "tx")).map (·.2)
       match parseEnv? kvs, txToks.mapM parseTx?, (lookup kvs "pb").bind parseBool? with
       | some e, some pool, some pb =>
-        match newBlockTemplate heapOps e pool (defaultFuel pool) with
-        | Result.ok t => render e pool t pb
-        | Result.err => "err"
+        match newBlockTemplate heapOps e pool (defaultFuel pool), diffObs e kvs with
+        | _, none => "bad-op"
+        | Result.ok t, some d => render e pool t pb ++ d
+        | Result.err, _ => "err"
       | _, _, _ => "bad-op"
   | "two" :: rest =>
     match rest.mapM kv? with
